@@ -193,9 +193,12 @@ func c06EdwardsOps() []h.DiffOp {
 				ep := NewExpandedEdwardsPoint(p)
 				c06PtOut(o, "point", ep.Point())
 				c06PtOut(o, "setexpanded", NewEdwardsPoint().SetExpanded(ep))
+				snap := *ep           // by-value snapshot taken before the reuse
 				ep.SetEdwardsPoint(q) // reuse
 				c06PtOut(o, "point2", ep.Point())
 				c06PtOut(o, "mul2", NewEdwardsPoint().ExpandedDoubleScalarMulBasepointVartime(s, ep, scalar.New()))
+				c06PtOut(o, "snap.point", snap.Point())
+				c06PtOut(o, "snap.mul", NewEdwardsPoint().ExpandedDoubleScalarMulBasepointVartime(s, &snap, scalar.New()))
 			}},
 		{Name: "montgomery", Weight: 4,
 			Covers: []string{"MontgomeryPoint.SetEdwards", "EdwardsPoint.SetMontgomery", "MontgomeryPoint.Equal", "NewMontgomeryPoint"},
